@@ -19,8 +19,8 @@ import (
 const c07MaxLen = 4 << 20
 
 func init() {
-	register(&Prop{ID: "C07", Witness: true, N: 60000, Quick: 1500, QuickFixed: 9, StallSec: 240,
-		Assume: []string{"a fault on a PROT_NONE page next to the haystack, or a store to its PROT_READ data pages, is turned into a panic by debug.SetPanicOnFault (self-test Probe() at start-up; the run is INCONCLUSIVE without it)", "non-termination is decided by the supervisor's per-case watchdog (240 s without progress, 1000× the median case) and then confirmed by replay; a panic or fatal error by the worker's exit status and journal"},
+	register(&Prop{ID: "C07", Witness: true, N: 60000, Quick: 1500, QuickFixed: 9, StallSec: 900,
+		Assume: []string{"a fault on a PROT_NONE page next to the haystack, or a store to its PROT_READ data pages, is turned into a panic by debug.SetPanicOnFault (self-test Probe() at start-up; the run is INCONCLUSIVE without it)", "non-termination is decided by the supervisor's per-case watchdog (900 s without progress, >1000× the median case) and then confirmed by replay; a panic or fatal error by the worker's exit status and journal"},
 		Rule:   "case i = (a) the arbitrary pattern string P(i) (random bytes, token soup, mutated valid patterns, invalid UTF-8, nesting/repeat/size limit families): Compile, CompilePOSIX, meta.Compile and QuoteMeta must return; when it compiles, it is searched too; (b) the pattern of G(D,i) with its 6 haystacks of all three input regions and, for every 40th case, a haystack of 70 000 – 1 048 576 bytes (past the backtracker's visited caps and the windowed fallbacks). Every haystack is placed flush against a PROT_NONE page (right and left alternately) on PROT_READ data pages, strings are views of the same guarded bytes; every public search/replace/split/iterator method of Regex and the offset-taking methods of meta.Engine (at in {0, mid, len, len+1}) are called; every returned value must satisfy the well-formedness predicates (span order and bounds, groups inside group 0 or -1/-1, len(submatch)=NumSubexp+1, FindAll ordered/non-overlapping/progressing, returned slices alias the input at the reported offsets, haystack bytes unchanged); one evaluation = one checked call; distinct_nontrivial = distinct (pattern, haystack, API) whose result carried at least one span",
 		Init:   initC07,
 		Run:    runC07})
@@ -507,6 +507,11 @@ func runC07(w *W, i uint64) {
 		if oversize > 0 {
 			n = oversize
 			w.Count("event:oversize-haystack-for-backtracker", 1)
+		} else if n0, err := nfa.NewDefaultCompiler().Compile(c.Pattern); err == nil && n0.States()*n > 40_000_000 {
+			// the NFA simulation costs states x bytes per call and ~60 calls are made on the large haystack:
+			// keep one call below ~4e7 steps (a \pL+ automaton has ~6000 states)
+			n = max(4096, 40_000_000/n0.States())
+			w.Count("event:big-haystack-scaled-to-nfa-size", 1)
 		}
 		alpha := gen.Alphabet(re0, c.Region)
 		big := make([]byte, 0, n)
